@@ -67,7 +67,7 @@ def _gen_hand(rng, o):
 
 def _gen_fluent(rng, o):
     """A small fluent program: source (optionally a generator) -> steps of map / map-with-yields / reduce / join."""
-    nsrc = rng.randint(1, 3)
+    nsrc = rng.choice([1, 2, 3, 3, 4, 5, 6, 7])
     ky = _nout(rng, o)
     steps = []
     depth = rng.randint(0, 3)
@@ -85,7 +85,10 @@ def _gen_fluent(rng, o):
                 steps.append(["map", "implicit", 0])
         elif r < 0.85 and dims:
             dim = rng.choice(dims)
-            steps.append(["reduce", dim])
+            if dim == "x" and rng.random() < 0.4:
+                steps.append(["reduce", dim, rng.choice([2, 2, 3, 4])])     # batched: one Payload serves nodes of different arity
+            else:
+                steps.append(["reduce", dim])
             dims.remove(dim)
             if not dims:
                 break
@@ -145,7 +148,11 @@ def _build_fluent(gp):
             act = act.map(fluent.Payload(f), yields=("y", list(range(k2))))
         elif st[0] == "reduce":
             f = simtasks.make(f"r{si}", 1)
-            act = act.reduce(fluent.Payload(f), dim=st[1])
+            if len(st) > 2:
+                f.batchable = True
+                act = act.reduce(fluent.Payload(f), dim=st[1], batch_size=st[2])
+            else:
+                act = act.reduce(fluent.Payload(f), dim=st[1])
     return act.graph()
 
 
@@ -200,6 +207,11 @@ def structural_violations(graph, job):
         for iname, src in n.inputs.items():
             pos = [i for i, a in enumerate(args) if isinstance(a, str) and a == iname]
             want.add((src.parent.name, src.name, n.name, pos[-1] if pos else None))
+        import re
+        ghosts = [a for a in args if isinstance(a, str) and re.fullmatch(r"input\d+", a) and a not in n.inputs]
+        if ghosts:
+            # an argument that names an input this node does not have reaches the callable as a literal string
+            out.append(("payload_names_input_the_node_does_not_have", (n.name[:40], ghosts, sorted(n.inputs))))
         if set(n.outputs) != set(job.tasks[n.name].definition.output_schema):
             out.append(("outputs_differ", (n.name, n.outputs, sorted(job.tasks[n.name].definition.output_schema))))
     got = {(e.source.task, e.source.output, e.sink_task, e.sink_input_ps) for e in job.edges}
